@@ -3,7 +3,7 @@
 namespace mm {
 bool build_group_s2(const Spec& s, XVisitor& v) {
   S_GROUP_HEAD
-  S_PA("symL", SymmEngine<ROW_LOWER_COL_UPPER>, 3) S_PA("symU", SymmEngine<ROW_UPPER_COL_LOWER>, 1)
+  S_PA("symL", SymmEngine<ROW_LOWER_COL_UPPER>, 3, 0) S_PA("symU", SymmEngine<ROW_UPPER_COL_LOWER>, 1, 0)
   return false;
 }
 }
